@@ -272,7 +272,7 @@ PROPS = {
     "C09": {
         "property_module": "AutosarVerif.Properties.C09",
         "modules": ["AutosarVerif.Properties.C09"],
-        "closure": ['AutosarVerif.Properties.C09', 'AutosarVerif.Lemmas.Files'],
+        "closure": ['AutosarVerif.Properties.C09', 'AutosarVerif.Lemmas.Files', 'AutosarVerif.Lemmas.Merge'],
         "scenario": 'merge',
         "scenario_args": [],
         "rule": "random master models built through the API, split over 2-4 files at splittable points (shared and exclusive packages, permuted siblings, mixed versions, BSW containers), documents written by the scenario's own writer; ALL load orders; oracles: union = master (after sort), attribution = split, per-file serialize/reload, order independence, conflicting files rejected with no effect, remove_file exactness.",
